@@ -54,7 +54,7 @@ class FStatus:
             self._success = ok
             self._exc = None if ok else (exc or DevErr(f"status {self.what} failed"))
             cbs, self._cbs = self._cbs, []
-        self.rec.ev("stat", self.what, "", "", self.sid, int(ok))
+        self.rec.ev("stat", "", "", "", self.sid, int(ok))
         for cb in cbs:
             cb(self)
 
